@@ -70,6 +70,22 @@ def check(ctx):
                "unrecognised mutable use of the input process image `pi_i` (%s) in %s – only the guarded reply copy may write it" % (u["kind"], f.name),
                f.loc(u["b"], u["i"]))
     ctx.anchor("data writer of pi_i (deref_mut feeding a copy)", len(data_write_sites), 1)
+    # re-seating: the buffers handed to the re-created peripheral are the same ones, in the same roles
+    for f in P.crate_fns(CR):
+        if f.module != "dp::peripheral" or not f.name.endswith("::reset_address"):
+            continue
+        tb = TermBuilder(f, P)
+        for b, c in call_sites(f, lambda c: (c.get("callee") or "").endswith("Peripheral::<'a>::new")):
+            args = [show(tb.joperand(a)) for a in c["args"]]
+            callee = P.get(CR, c["callee"])
+            names = [callee.locals[i + 1].get("name") for i in range(callee.argc)] if callee else []
+            ok = True
+            for n_, a_ in zip(names, args):
+                if n_ in ("pi_i", "pi_q"):
+                    other = "pi_q" if n_ == "pi_i" else "pi_i"
+                    ok = ok and ("self." + n_ in a_ or "." + n_ in a_) and ("." + other not in a_)
+            ctx.ob("a.who-writes", "reseat-roles|%s" % f.name.split("::")[-1], ok and "pi_i" in names,
+                   "reset_address re-creates the peripheral with the process images in other roles: %s" % dict(zip(names, [a[:60] for a in args])), f.loc(b))
 
     # ---------------- b: the copy is guarded --------------------------------------------------
     ncopy = 0
